@@ -37,6 +37,10 @@ import (
 	"verifharness/internal/ev"
 )
 
+// classRPMCycle: go-rpmdb follows a cyclic overflow-page chain of a corrupt Berkeley DB until the
+// extractor's timeout (default 5 min), appending a page to the value on every round.
+const classRPMCycle = "os/rpm|bdb_overflow_cycle_timeout"
+
 const (
 	wallBudget  = 20 * time.Second
 	allocBudget = 1 << 30
@@ -328,6 +332,11 @@ func propC02(c c02Case) (ev.Outcome, error) {
 		}
 		return out, fmt.Errorf("Extract of %s panics at %s on %s (%d bytes): %s\n%s", c.Extractor, r.Site, c.Path, len(data), r.PanicVal, ev.TrimStack([]byte(r.Stack)))
 	}
+	if rpmShortTimeout.Load() && c.Extractor == "os/rpm" && r.Err != nil && strings.Contains(r.Err.Error(), "timed out parsing hash page") {
+		col.Excluded(classRPMCycle)
+		out.Classes = append(out.Classes, "rpm_cycle_excluded")
+		return out, nil
+	}
 	if r.TimedOut || r.Dur > wallBudget || r.Alloc > allocBudget {
 		what := fmt.Sprintf("wall %v, allocated %d MiB (budget %v / %d MiB)", r.Dur.Round(time.Millisecond), r.Alloc>>20, wallBudget, allocBudget>>20)
 		if os.Getenv("C02_ISOLATED") != "" {
@@ -512,9 +521,7 @@ func TestC02_isolated(t *testing.T) {
 	}
 	jb, _ := json.Marshal(res)
 	fmt.Printf("ISOLATED %s\n", jb)
-	if r.TimedOut {
-		os.Exit(0) // do not wait for the hung goroutine
-	}
+	// a hung goroutine is not waited for: the test binary exits when this test returns
 }
 
 // ---------------------------------------------------------------------------------------
@@ -531,6 +538,9 @@ func TestC02_mutants(t *testing.T) {
 		return
 	}
 	col := c02col()
+	if col.IsKnown(classRPMCycle) || os.Getenv("C02_EXPLORE") != "" {
+		rpmShortTimeout.Store(true)
+	}
 	col.SetExtra("extractors_covered", len(Registry()))
 	col.SetExtra("healthy_neighbour_pool", len(healthy()))
 	ev.Check(t, col, c02Checks(), genC02, propC02)
